@@ -59,7 +59,7 @@ impl TryFrom<Repr> for IBig {
 }
 
 macro_rules! forward_conversion_to_repr {
-    ($from:ty => $t:ident) => {
+    ($from:ty => $t:ident $(. $canonicalize:ident())?) => {
         impl From<$from> for $t {
             #[inline]
             fn from(v: $from) -> Self {
@@ -70,15 +70,17 @@ macro_rules! forward_conversion_to_repr {
             type Error = ConversionError;
             #[inline]
             fn try_from(value: $t) -> Result<Self, Self::Error> {
-                Self::try_from(value.0)
+                // the conversion from Repr tests the stored denominator: a Relaxed number
+                // is reduced first (6/3 is the integer 2), as the conversions to f32/f64 do
+                Self::try_from(value $(.$canonicalize())? .0)
             }
         }
     };
 }
 forward_conversion_to_repr!(UBig => RBig);
 forward_conversion_to_repr!(IBig => RBig);
-forward_conversion_to_repr!(UBig => Relaxed);
-forward_conversion_to_repr!(IBig => Relaxed);
+forward_conversion_to_repr!(UBig => Relaxed.canonicalize());
+forward_conversion_to_repr!(IBig => Relaxed.canonicalize());
 
 macro_rules! impl_conversion_for_prim_ints {
     ($($t:ty)*) => {$(
@@ -102,7 +104,7 @@ macro_rules! impl_conversion_for_prim_ints {
         }
 
         forward_conversion_to_repr!($t => RBig);
-        forward_conversion_to_repr!($t => Relaxed);
+        forward_conversion_to_repr!($t => Relaxed.canonicalize());
     )*};
 }
 impl_conversion_for_prim_ints!(u8 u16 u32 u64 u128 usize i8 i16 i32 i64 i128 isize);
